@@ -159,8 +159,13 @@ def r_conll_heads(repo, rep, R='R7.1'):
             if base[0] == 'name':
                 ok_adv = len(augs) == 1 and augs[0][2] == '+' and augs[0][3] == C(1)
             else:
-                src_ok = base[0] == 'call' and base[1] == N('next') and len(base[2]) == 1 and (
-                    base[2][0] in (('call', N('count'), (), ()), ('call', A(N('itertools'), 'count'), (), ()), ('call', N('count'), (C(0),), ())))
+                # next(<name>) with the name bound once, in the enclosing encoder, to a fresh itertools.count()
+                src_ok = False
+                if base[0] == 'call' and base[1] == N('next') and len(base[2]) == 1 and base[2][0][0] == 'name':
+                    outer_fn = mod.get('conll_of')
+                    binds = [a_ for a_ in ast.walk(outer_fn) if isinstance(a_, ast.Assign) and any(isinstance(t_, ast.Name) and t_.id == base[2][0][1] for t_ in a_.targets)]
+                    src_ok = len(binds) == 1 and src(binds[0].value).replace(' ', '') in ('count()', 'itertools.count()', 'count(0)', 'itertools.count(0)') \
+                        and not any(isinstance(p_, (ast.For, ast.While)) for p_ in _parents_until(binds[0], outer_fn))
                 ok_adv = src_ok and len(draws) == 1
             detail += '; advance: %s' % ('counter += 1' if augs else ('one draw from count()' if draws else 'none'))
     rep.check(ok_cols, R, '%s:%s conll_of.rec' % (CONLL, crec.lineno), 'conll:head-column', 'the head column prints dependencies[position] + 1 for the word whose ID is position + 1 (%s)' % detail,
